@@ -260,11 +260,33 @@ pub fn run(t: &[&str]) -> String {
             let mut i = 24;
             let p = p3(t, &mut i);
             let half = pf32(t[i]);
-            let order = t[i + 1]; // "pv": perspective then viewport (as the demos), "vp": the reverse
-            let cam: Cam = if order == "pv" {
-                Camera::new((w, h)).mode(view).perspective(f, near..far).viewport(rect)
-            } else {
-                Camera::new((w, h)).mode(view).viewport(rect).perspective(f, near..far)
+            // Builder order: a permutation of m (mode), v (viewport) and p (perspective) or o (orthographic, box
+            // (-1/f, -1/f, near)..(1/f, 1/f, far)); legacy tokens "pv" = "mpv", "vp" = "mvp".
+            let order = match t[i + 1] {
+                "pv" => "mpv",
+                "vp" => "mvp",
+                o => o,
+            };
+            let ortho = order.contains('o');
+            let bx = 1.0 / f;
+            macro_rules! pj {
+                ($c:expr) => {
+                    if ortho {
+                        $c.orthographic(pt3(-bx, -bx, near)..pt3(bx, bx, far))
+                    } else {
+                        $c.perspective(f, near..far)
+                    }
+                };
+            }
+            let d = (w, h);
+            let cam: Cam = match order.replace('o', "p").as_str() {
+                "mpv" => pj!(Camera::new(d).mode(view)).viewport(rect),
+                "mvp" => pj!(Camera::new(d).mode(view).viewport(rect)),
+                "pmv" => pj!(Camera::new(d)).mode(view).viewport(rect),
+                "pvm" => pj!(Camera::new(d)).viewport(rect).mode(view),
+                "vmp" => pj!(Camera::new(d).viewport(rect).mode(view)),
+                "vpm" => pj!(Camera::new(d).viewport(rect)).mode(view),
+                _ => panic!("builder order"),
             };
             out.push(cam.dims.0.to_string());
             out.push(cam.dims.1.to_string());
@@ -676,12 +698,32 @@ pub fn gen(rng: &mut Rng, tier: Tier, out: &mut Vec<String>) {
         }
         // half-size of the triangle in world units: about 3 pixels of the (clamped) viewport width
         let vpw = (hr - hl).max(4) as f32;
-        let half = 3.0 * z / (f * vpw * 0.5);
+        // builder order: every permutation of mode / viewport / projection; one case in five orthographic
+        let ortho = rng.chance(1, 5);
+        let perm = ["mpv", "mvp", "pmv", "pvm", "vmp", "vpm"][rng.below(6) as usize];
+        let order = if ortho { perm.replace('p', "o") } else { perm.to_string() };
+        let (p, half) = if ortho {
+            // orthographic box (-1/f, -1/f, near)..(1/f, 1/f, far): pixel scale f * vpw / 2 whatever the depth
+            let bx = 1.0 / f;
+            let qt = [
+                rng.f32_in(-lat, lat) * bx - view[0][3],
+                rng.f32_in(-lat, lat) * bx - view[1][3],
+                z - view[2][3],
+            ];
+            let mut p = [0.0f32; 3];
+            for j in 0..3 {
+                for i in 0..3 {
+                    p[j] += view[i][j] * qt[i];
+                }
+            }
+            (p, 3.0 / (f * vpw * 0.5))
+        } else {
+            (p, 3.0 * z / (f * vpw * 0.5))
+        };
         let vt: Vec<String> = view.iter().flatten().map(|x| h32(*x)).collect();
         out.push(format!(
-            "camproj {w} {h} {} {} {} {hs} {vs} {} {} {} {}",
-            h32(f), h32(near), h32(far), vt.join(" "), h3(p), h32(half),
-            if rng.chance(3, 4) { "pv" } else { "vp" }
+            "camproj {w} {h} {} {} {} {hs} {vs} {} {} {} {order}",
+            h32(f), h32(near), h32(far), vt.join(" "), h3(p), h32(half)
         ));
     }
     // ---- first person
